@@ -13,6 +13,8 @@ import (
 	"math"
 	"math/big"
 	"strings"
+	"sync/atomic"
+	"time"
 
 	"github.com/richardwilkes/toolbox/xmath/num"
 	"verifharness/hx"
@@ -49,8 +51,8 @@ func b2s(b bool) string {
 	return "0"
 }
 
-func ustr(u num.Uint128) string { h, l := u.Components(); return pair(h, l) }
-func istr(i num.Int128) string  { h, l := i.Components(); return pair(h, l) }
+func ustr(u num.Uint128) string { h, l := wordsU(u); return pair(h, l) }
+func istr(i num.Int128) string  { h, l := wordsI(i); return pair(h, l) }
 
 func parseBig(sign, mag string) *big.Int {
 	b, ok := new(big.Int).SetString(mag, 16)
@@ -70,9 +72,33 @@ const (
 
 func okErr(err error) string { return b2s(err == nil) }
 
+// guarded runs one line with a deadline, so that a mutant that loops costs seconds, not the stream's timeout: the
+// line is answered `hang`, and after three hangs the rest of the stream is skipped (the spinning goroutines cannot be
+// stopped).  Panics are turned into the token `panic` here because hx.Main's recover does not see other goroutines.
+var hangs atomic.Int32
+
+func guarded(f func() string) string {
+	if hangs.Load() >= 3 {
+		return "skipped-after-crash"
+	}
+	ch := make(chan string, 1)
+	go func() { ch <- hx.Safe(f) }()
+	select {
+	case s := <-ch:
+		return s
+	case <-time.After(lineDeadline):
+		hangs.Add(1)
+		return "hang"
+	}
+}
+
+const lineDeadline = 20 * time.Second
+
 type conv struct{}
 
-func (conv) Run(line string) string {
+func (conv) Run(line string) string { return guarded(func() string { return convRun(line) }) }
+
+func convRun(line string) string {
 	f := strings.Fields(line)
 	if len(f) == 0 {
 		return "bad-op"
@@ -108,39 +134,37 @@ func runU(op string, a []string) string {
 	case "fromfloat":
 		return ustr(num.Uint128FromFloat64(math.Float64frombits(parseU64(a[0]))))
 	case "asfloat":
-		return fbits(num.Uint128FromComponents(parsePair(a[0])).AsFloat64())
+		return fbits(mkU(parsePair(a[0])).AsFloat64())
 	case "fromstring":
 		s := string(hx.UnHex(a[0]))
 		v, err := num.Uint128FromString(s)
 		nc := num.Uint128FromStringNoCheck(s)
 		if err != nil {
-			if !v.IsZero() {
-				return "err-with-value " + ustr(nc)
-			}
+			_ = v // what accompanies an error is not constrained; FromStringNoCheck's documented 0 is compared
 			return "err " + ustr(nc)
 		}
 		return "ok " + ustr(v) + " " + ustr(nc)
 	case "unmarshal":
 		s := string(hx.UnHex(a[0]))
-		r1 := num.Uint128FromComponents(sentinelHi, sentinelLo)
+		r1 := mkU(sentinelHi, sentinelLo)
 		e1 := r1.UnmarshalText([]byte(s))
-		r2 := num.Uint128FromComponents(sentinelHi, sentinelLo)
+		r2 := mkU(sentinelHi, sentinelLo)
 		e2 := r2.UnmarshalJSON([]byte(s))
-		r3 := num.Uint128FromComponents(sentinelHi, sentinelLo)
+		r3 := mkU(sentinelHi, sentinelLo)
 		e3 := r3.UnmarshalYAML(yamlFeeder(s))
 		return okErr(e1) + "/" + ustr(r1) + " " + okErr(e2) + "/" + ustr(r2) + " " + okErr(e3) + "/" + ustr(r3)
 	case "frombig":
 		return ustr(num.Uint128FromBigInt(parseBig(a[0], a[1])))
 	case "asbig":
-		return num.Uint128FromComponents(parsePair(a[0])).AsBigInt().Text(16)
+		return mkU(parsePair(a[0])).AsBigInt().Text(16)
 	case "str":
-		v := num.Uint128FromComponents(parsePair(a[0]))
+		v := mkU(parsePair(a[0]))
 		t, _ := v.MarshalText() //nolint:errcheck // never fails
 		j, _ := v.MarshalJSON() //nolint:errcheck // never fails
 		y, _ := v.MarshalYAML() //nolint:errcheck // never fails
 		return v.String() + " " + string(t) + " " + string(j) + " " + fmt.Sprint(y)
 	case "narrow":
-		v := num.Uint128FromComponents(parsePair(a[0]))
+		v := mkU(parsePair(a[0]))
 		i64 := "err"
 		if n, err := v.Int64(); err == nil {
 			i64 = fmt.Sprintf("ok:%016x", uint64(n))
@@ -149,6 +173,10 @@ func runU(op string, a []string) string {
 			fmt.Sprintf("%016x", v.AsUint64()) + " " + i64
 	case "from64":
 		return ustr(num.Uint128From64(parseU64(a[0])))
+	case "comps": // the exported word constructor / accessor against the white-box words
+		hi, lo := parsePair(a[0])
+		h2, l2 := mkU(hi, lo).Components()
+		return ustr(num.Uint128FromComponents(hi, lo)) + " " + pair(h2, l2) + " " + b2s(mkU(hi, lo).IsZero())
 	}
 	return "bad-op"
 }
@@ -158,39 +186,37 @@ func runI(op string, a []string) string {
 	case "fromfloat":
 		return istr(num.Int128FromFloat64(math.Float64frombits(parseU64(a[0]))))
 	case "asfloat":
-		return fbits(num.Int128FromComponents(parsePair(a[0])).AsFloat64())
+		return fbits(mkI(parsePair(a[0])).AsFloat64())
 	case "fromstring":
 		s := string(hx.UnHex(a[0]))
 		v, err := num.Int128FromString(s)
 		nc := num.Int128FromStringNoCheck(s)
 		if err != nil {
-			if !v.IsZero() {
-				return "err-with-value " + istr(nc)
-			}
+			_ = v // what accompanies an error is not constrained; FromStringNoCheck's documented 0 is compared
 			return "err " + istr(nc)
 		}
 		return "ok " + istr(v) + " " + istr(nc)
 	case "unmarshal":
 		s := string(hx.UnHex(a[0]))
-		r1 := num.Int128FromComponents(sentinelHi, sentinelLo)
+		r1 := mkI(sentinelHi, sentinelLo)
 		e1 := r1.UnmarshalText([]byte(s))
-		r2 := num.Int128FromComponents(sentinelHi, sentinelLo)
+		r2 := mkI(sentinelHi, sentinelLo)
 		e2 := r2.UnmarshalJSON([]byte(s))
-		r3 := num.Int128FromComponents(sentinelHi, sentinelLo)
+		r3 := mkI(sentinelHi, sentinelLo)
 		e3 := r3.UnmarshalYAML(yamlFeeder(s))
 		return okErr(e1) + "/" + istr(r1) + " " + okErr(e2) + "/" + istr(r2) + " " + okErr(e3) + "/" + istr(r3)
 	case "frombig":
 		return istr(num.Int128FromBigInt(parseBig(a[0], a[1])))
 	case "asbig":
-		return num.Int128FromComponents(parsePair(a[0])).AsBigInt().Text(16)
+		return mkI(parsePair(a[0])).AsBigInt().Text(16)
 	case "str":
-		v := num.Int128FromComponents(parsePair(a[0]))
+		v := mkI(parsePair(a[0]))
 		t, _ := v.MarshalText() //nolint:errcheck // never fails
 		j, _ := v.MarshalJSON() //nolint:errcheck // never fails
 		y, _ := v.MarshalYAML() //nolint:errcheck // never fails
 		return v.String() + " " + string(t) + " " + string(j) + " " + fmt.Sprint(y)
 	case "narrow":
-		v := num.Int128FromComponents(parsePair(a[0]))
+		v := mkI(parsePair(a[0]))
 		i64 := "err"
 		if n, err := v.Int64(); err == nil {
 			i64 = fmt.Sprintf("ok:%016x", uint64(n))
@@ -202,6 +228,12 @@ func runI(op string, a []string) string {
 		return istr(num.Int128From64(int64(parseU64(a[0]))))
 	case "fromu64":
 		return istr(num.Int128FromUint64(parseU64(a[0])))
+	case "comps":
+		hi, lo := parsePair(a[0])
+		h2, l2 := mkI(hi, lo).Components()
+		return istr(num.Int128FromComponents(hi, lo)) + " " + pair(h2, l2) + " " + b2s(mkI(hi, lo).IsZero())
+	case "abs":
+		return ustr(mkI(parsePair(a[0])).AbsUint128())
 	}
 	return "bad-op"
 }
@@ -234,7 +266,9 @@ func ofU64(a uint64) float64 { return float64(a) }
 //go:noinline
 func ofI64(a int64) float64 { return float64(a) }
 
-func (f64area) Run(line string) string {
+func (f64area) Run(line string) string { return guarded(func() string { return f64Run(line) }) }
+
+func f64Run(line string) string {
 	f := strings.Fields(line)
 	if len(f) != 4 || f[0] != "f64op" {
 		return "bad-op"
